@@ -244,24 +244,50 @@ func lcReplay(idx int, b lcBehaviour, mode string) lcResult {
 		fn = f1.CombineScenarios(comps...)
 	}
 	scn := scenarios.New().Add(&scenarios.Scenario{Name: "lc", ScenarioFn: fn})
+	reps := 1
+	if b.NComp > 1 {
+		reps = 2 // the same combined ScenarioFn is set up again in a second run of the same process
+	}
+	for rep := 0; rep < reps; rep++ {
+		if rep > 0 {
+			if !res.Match {
+				return res
+			}
+			r.mu.Lock()
+			r.observed, r.nextK, r.handles, r.variants = nil, map[lcKey]int{}, map[lcKey]*f1testing.T{}, nil
+			r.mu.Unlock()
+			res.Mode = mode + "+rerun"
+		}
+		lcOnce(&res, r, scn, b, mode)
+	}
+	return res
+}
+
+func lcOnce(resp *lcResult, r *lcRun, scn *scenarios.Scenarios, b lcBehaviour, mode string) {
+	res := *resp
+	defer func() { *resp = res }()
+	lcOnceInner(&res, r, scn, b, mode)
+}
+
+func lcOnceInner(res *lcResult, r *lcRun, scn *scenarios.Scenarios, b lcBehaviour, mode string) lcResult {
 	trig, err := lcTrigger(mode, b.NIter)
 	if err != nil {
 		res.Note = "trigger: " + err.Error()
-		return res
+		return *res
 	}
 	m := metrics.NewInstance(prometheus.NewRegistry(), true, nil)
 	rn, err := run.NewRun(options.RunOptions{Scenario: "lc", MaxDuration: 20 * time.Second, Concurrency: 1,
 		MaxIterations: uint64(b.NIter), Verbose: true}, scn, trig, 5*time.Second, envsettings.Settings{}, m, ui.NewDiscardOutput())
 	if err != nil {
 		res.Note = "newrun: " + err.Error()
-		return res
+		return *res
 	}
 	t0 := time.Now()
 	result, err := rn.Do(context.Background())
 	res.Ms = float64(time.Since(t0).Microseconds()) / 1000
 	if err != nil {
 		res.Note = "do: " + err.Error()
-		return res
+		return *res
 	}
 	snap := result.Snapshot()
 	errsSeen := []string{}
@@ -291,7 +317,7 @@ func lcReplay(idx int, b lcBehaviour, mode string) lcResult {
 	a, _ := json.Marshal(res.Expected)
 	o, _ := json.Marshal(res.Observed)
 	res.Match = string(a) == string(o) && res.Note == ""
-	return res
+	return *res
 }
 
 func init() {
